@@ -67,7 +67,7 @@ def rust_str(s):
     return '"' + "".join(out) + '"'
 
 
-def scale_value(rnd, taken_values):
+def scale_value(rnd, taken_values, safe=False):
     """A positive rational with at most 18 fractional digits, at least 1e-6
     (relative) away from every value already taken unless it repeats one."""
     for _ in range(200):
@@ -84,6 +84,8 @@ def scale_value(rnd, taken_values):
         else:
             v = Fraction(rnd.randint(1, 9999), 10**rnd.randint(0, 4)) * Fraction(10)**rnd.randint(-5, 8)
         if v <= 0 or v == 1:
+            continue
+        if safe and not (Fraction(1, 10**6) <= v <= Fraction(10**9)):
             continue
         if v.denominator > 10**18 or (v * 10**18).denominator != 1:
             continue
@@ -131,7 +133,7 @@ def literal_value(lit):
     return Fraction(lit.rstrip(".") if lit.endswith(".") else lit)
 
 
-def random_units(rnd, n, with_ref, taken_idents, allow_prefix=True):
+def random_units(rnd, n, with_ref, taken_idents, allow_prefix=True, safe=False):
     units = []
     syms = set()
     values = set()
@@ -148,7 +150,7 @@ def random_units(rnd, n, with_ref, taken_idents, allow_prefix=True):
         if with_ref and allow_prefix and rnd.random() < 0.35:
             u["prefix"] = rnd.choice(PREFIXES)[0]
         if with_ref and not u["ref"]:
-            v = scale_value(rnd, values)
+            v = scale_value(rnd, values, safe)
             values.add(v)
             u["scale"] = rnd.choice(literal_forms(v))
             assert literal_value(u["scale"]) == v, (u["scale"], v)
@@ -158,7 +160,7 @@ def random_units(rnd, n, with_ref, taken_idents, allow_prefix=True):
     return units
 
 
-def random_def(rnd, name, kind=None, derived=None, taken_idents=None):
+def random_def(rnd, name, kind=None, derived=None, taken_idents=None, safe=False):
     taken_idents = taken_idents if taken_idents is not None else set()
     if kind is None:
         kind = rnd.choices(["ref", "noref", "single"], [7, 2, 1])[0]
@@ -167,7 +169,7 @@ def random_def(rnd, name, kind=None, derived=None, taken_idents=None):
     elif kind == "noref":
         units = random_units(rnd, rnd.randint(2, 6), False, taken_idents)
     else:
-        units = random_units(rnd, rnd.randint(2, 8), True, taken_idents)
+        units = random_units(rnd, rnd.randint(2, 8), True, taken_idents, safe=safe)
     extras = []
     if rnd.random() < 0.5:
         extras.append((rnd.randint(0, len(units)), "/// Generated quantity %s" % name))
@@ -257,7 +259,7 @@ def implied_instances(r, a, op, b):
     return [("/", a, b, r), ("*", r, b, a), ("*", b, r, a), ("/", a, r, b)]
 
 
-def random_graph(rnd, prefix="G", taken=None):
+def random_graph(rnd, prefix="G", taken=None, ops_safe=False):
     """{'types': [definitions]}: 2-5 base types with reference unit, 1-4
     derived types, optionally bystanders without reference unit / with a
     single unit.  No two definitions produce the same operator."""
@@ -265,7 +267,7 @@ def random_graph(rnd, prefix="G", taken=None):
     taken = taken if taken is not None else set()
     n_base = rnd.randint(2, 4)
     for i in range(n_base):
-        types.append(random_def(rnd, "%sB%d" % (prefix, i), "ref", None, taken))
+        types.append(random_def(rnd, "%sB%d" % (prefix, i), "ref", None, taken, safe=ops_safe))
     used = set()
     n_der = rnd.randint(1, 4)
     for i in range(n_der):
@@ -292,7 +294,7 @@ def random_graph(rnd, prefix="G", taken=None):
         name = "%sD%d" % (prefix, i)
         for (o, x, y, _) in implied_instances(name, a, op, b):
             used.add((o, x, y))
-        types.append(random_def(rnd, name, "ref", (a, op, b), taken))
+        types.append(random_def(rnd, name, "ref", (a, op, b), taken, safe=ops_safe))
     if rnd.random() < 0.5:
         types.append(random_def(rnd, "%sN" % prefix, "noref", None, taken))
     if rnd.random() < 0.5:
